@@ -6,6 +6,7 @@ set -u
 id="$1"; k="$2"; src="$3"; mode="${4:-target}"
 out="/verif/seeded/$id-$k"; mkdir -p "$out"
 cp "$src/mutant$k.patch" "$out/patch.diff"; cp "$src/demo$k.rs" "$out/demo.rs" 2>/dev/null; cp "$src/meta$k.json" "$out/agent_meta.json" 2>/dev/null
+demoflags=""; [ -f "$src/demoflags$k" ] && demoflags="$(cat "$src/demoflags$k")" && echo "$demoflags" > "$out/demo_cargo_flags.txt"
 wt="$(mktemp -d /tmp/sci-eval-XXXXXX)"; rmdir "$wt"
 git -C /repo worktree add -q --detach "$wt" HEAD || exit 3
 cleanup() { git -C /repo worktree remove --force "$wt" >/dev/null 2>&1; rm -rf "$wt"; git -C /repo worktree prune; }
@@ -18,9 +19,9 @@ if [ $applies = yes ]; then
   (cd "$wt" && cargo test --workspace --no-fail-fast --offline >>"$log" 2>&1) && suite=pass || suite=FAIL
   if [ -f "$out/demo.rs" ]; then
     cp "$out/demo.rs" "$wt/tests/demo.rs"
-    (cd "$wt" && cargo test --offline --test demo >>"$log" 2>&1) && demo_with=pass || demo_with=fail
+    (cd "$wt" && cargo test --offline $demoflags --test demo >>"$log" 2>&1) && demo_with=pass || demo_with=fail
     git -C "$wt" checkout -q -- src
-    (cd "$wt" && cargo test --offline --test demo >>"$log" 2>&1) && demo_without=pass || demo_without=fail
+    (cd "$wt" && cargo test --offline $demoflags --test demo >>"$log" 2>&1) && demo_without=pass || demo_without=fail
     rm -f "$wt/tests/demo.rs"
     git -C "$wt" apply "$out/patch.diff"
   fi
@@ -48,7 +49,7 @@ except Exception: pass
 res={c.split(':')[0]:int(c.split(':')[1]) for c in results.split()}
 meta={"property":pid,"mutant":int(k),"summary":agent.get("summary"),"needs_to_manifest":agent.get("needs_to_manifest"),
  "confirmed_by_me":{"patch_applies_to_repo_HEAD":applies,"existing_suite_with_mutant":suite,"demo_with_mutant":dw,"demo_without_mutant":dwo,
-   "commands":["git apply patch.diff","cargo test --workspace --no-fail-fast --offline","cargo test --offline --test demo (with / without the patch)","VERIF_REPO=<worktree> ./check <ID> --tier quick"]},
+   "commands":["git apply patch.diff","cargo test --workspace --no-fail-fast --offline","cargo test --offline <demo_cargo_flags.txt if present> --test demo (with / without the patch)","VERIF_REPO=<worktree> ./check <ID> --tier quick"]},
  "checks_exit_codes":res,"caught_by":[c for c,r in res.items() if r==1],"kept": applies=="yes" and suite=="pass" and dw=="fail" and dwo=="pass"}
 json.dump(meta,open(os.path.join(out,'meta.json'),'w'),indent=1)
 print(pid,k,"applies",applies,"suite",suite,"demo with/without",dw,dwo,"checks",results)
